@@ -5,6 +5,6 @@ CONSTANTS
   MaxAttempt = 4
   Kinds = {"signing", "dkg"}
   Slots = {1, 2}
-  AllOrders = TRUE
+  AllCalls = TRUE
   Variant = "contract"
 INVARIANTS TypeOK Agreement ExcludedWellFormed OnlyReady SigningExact DkgQualified ErrorsExact OrderIrrelevant
